@@ -19,6 +19,7 @@ import (
 	"go/token"
 	"os"
 	"path/filepath"
+	"regexp"
 	"strings"
 )
 
@@ -26,6 +27,7 @@ func main() {
 	call := flag.String("call", `simPoint(%q)`, "call template; %q receives the site name")
 	out := flag.String("out", "", "output directory")
 	simfile := flag.String("simfile", "", "DIR:PKG: also add a file to package PKG in DIR that defines SimHook and simPoint (for packages without guarded hooks)")
+	simsync := flag.String("simsync", "", "DIR:PKG: replace sync.Mutex and sync.RWMutex in the given files by simulated mutexes (defined in a file added to package PKG in DIR); yields are then also inserted inside the critical sections of those mutexes")
 	flag.Parse()
 	if *out == "" || flag.NArg() == 0 {
 		fmt.Fprintln(os.Stderr, "usage: autoyield -out DIR [-call TEMPLATE] FILE...")
@@ -42,6 +44,10 @@ func main() {
 		check(err)
 		base := filepath.Base(abs)
 		ins := &inserter{fset: fset, base: base, call: *call}
+		if *simsync != "" {
+			ins.simNames = simulatedNames(f)
+			dropHookMutexes(f)
+		}
 		for _, d := range f.Decls {
 			if fd, ok := d.(*ast.FuncDecl); ok && fd.Body != nil {
 				ins.held = 0
@@ -54,6 +60,9 @@ func main() {
 		var sb strings.Builder
 		check(format.Node(&sb, fset, f))
 		text := sb.String()
+		if *simsync != "" {
+			text = useSimulatedMutexes(text)
+		}
 		for _, line := range strings.Split(string(src), "\n") {
 			if strings.HasPrefix(line, "//go:build") {
 				text = line + "\n\n" + text
@@ -75,6 +84,17 @@ func main() {
 		check(os.WriteFile(dst, []byte(fmt.Sprintf(simFileTemplate, pkg)), 0o644))
 		overlay[filepath.Join(abs, "zz_sim_overlay.go")] = dst
 	}
+	if *simsync != "" {
+		dir, pkg, ok := strings.Cut(*simsync, ":")
+		if !ok {
+			check(fmt.Errorf("bad -simsync %q", *simsync))
+		}
+		abs, err := filepath.Abs(dir)
+		check(err)
+		dst := filepath.Join(*out, "ay_simsync_"+pkg+".go")
+		check(os.WriteFile(dst, []byte(fmt.Sprintf(simSyncTemplate, pkg)), 0o644))
+		overlay[filepath.Join(abs, "zz_simsync_overlay.go")] = dst
+	}
 	b, err := json.MarshalIndent(map[string]any{"Replace": overlay}, "", " ")
 	check(err)
 	fmt.Println(string(b))
@@ -94,6 +114,220 @@ func simPoint(site string) {
 	}
 }
 `
+
+const simSyncTemplate = `// Code added through a build overlay by the verification harness; not part of
+// the repository.
+
+package %s
+
+import (
+	"sync"
+	"unsafe"
+)
+
+// SimSync, when set, is asked first by every operation of a simulated mutex;
+// if it declines (outside a simulated run) the real mutex inside is used.
+var SimSync func(op int, m unsafe.Pointer) (handled, ok bool)
+
+type simMutex struct{ real sync.Mutex }
+
+func (m *simMutex) Lock() {
+	if h := SimSync; h != nil {
+		if handled, _ := h(0, unsafe.Pointer(m)); handled {
+			return
+		}
+	}
+	m.real.Lock()
+}
+
+func (m *simMutex) Unlock() {
+	if h := SimSync; h != nil {
+		if handled, _ := h(1, unsafe.Pointer(m)); handled {
+			return
+		}
+	}
+	m.real.Unlock()
+}
+
+func (m *simMutex) TryLock() bool {
+	if h := SimSync; h != nil {
+		if handled, ok := h(2, unsafe.Pointer(m)); handled {
+			return ok
+		}
+	}
+
+	return m.real.TryLock()
+}
+
+type simRWMutex struct{ real sync.RWMutex }
+
+func (m *simRWMutex) Lock() {
+	if h := SimSync; h != nil {
+		if handled, _ := h(0, unsafe.Pointer(m)); handled {
+			return
+		}
+	}
+	m.real.Lock()
+}
+
+func (m *simRWMutex) Unlock() {
+	if h := SimSync; h != nil {
+		if handled, _ := h(1, unsafe.Pointer(m)); handled {
+			return
+		}
+	}
+	m.real.Unlock()
+}
+
+func (m *simRWMutex) TryLock() bool {
+	if h := SimSync; h != nil {
+		if handled, ok := h(2, unsafe.Pointer(m)); handled {
+			return ok
+		}
+	}
+
+	return m.real.TryLock()
+}
+
+func (m *simRWMutex) RLock() {
+	if h := SimSync; h != nil {
+		if handled, _ := h(3, unsafe.Pointer(m)); handled {
+			return
+		}
+	}
+	m.real.RLock()
+}
+
+func (m *simRWMutex) RUnlock() {
+	if h := SimSync; h != nil {
+		if handled, _ := h(4, unsafe.Pointer(m)); handled {
+			return
+		}
+	}
+	m.real.RUnlock()
+}
+
+func (m *simRWMutex) TryRLock() bool {
+	if h := SimSync; h != nil {
+		if handled, ok := h(5, unsafe.Pointer(m)); handled {
+			return ok
+		}
+	}
+
+	return m.real.TryRLock()
+}
+
+// RLocker returns a Locker for the read side, as sync.RWMutex does.
+func (m *simRWMutex) RLocker() sync.Locker { return (*simRLocker)(m) }
+
+type simRLocker simRWMutex
+
+func (r *simRLocker) Lock()   { (*simRWMutex)(r).RLock() }
+func (r *simRLocker) Unlock() { (*simRWMutex)(r).RUnlock() }
+`
+
+var (
+	reMutex   = regexp.MustCompile(`\bsync\.Mutex\b`)
+	reRWMutex = regexp.MustCompile(`\bsync\.RWMutex\b`)
+	reSyncUse = regexp.MustCompile(`\bsync\.[A-Za-z]`)
+	reSyncImp = regexp.MustCompile(`(?m)^\s*"sync"\n`)
+)
+
+// useSimulatedMutexes replaces the mutex types in printed source text and
+// removes the import of sync if nothing else uses it.
+func useSimulatedMutexes(text string) string {
+	text = reMutex.ReplaceAllString(text, "simMutex")
+	text = reRWMutex.ReplaceAllString(text, "simRWMutex")
+	if !reSyncUse.MatchString(text) {
+		text = reSyncImp.ReplaceAllString(text, "")
+		text = strings.Replace(text, "import \"sync\"\n", "", 1)
+	}
+
+	return text
+}
+
+func isSyncMutexType(e ast.Expr) bool {
+	if st, ok := e.(*ast.StarExpr); ok {
+		e = st.X
+	}
+	sel, ok := e.(*ast.SelectorExpr)
+	if !ok {
+		return false
+	}
+	id, ok := sel.X.(*ast.Ident)
+
+	return ok && id.Name == "sync" && (sel.Sel.Name == "Mutex" || sel.Sel.Name == "RWMutex")
+}
+
+// simulatedNames returns the names of the struct fields and variables of the
+// file that are declared as (pointers to) sync.Mutex or sync.RWMutex, plus
+// the variables initialised with &sync.Mutex{} and the like: Lock calls on
+// them do not open a critical section in which yields must not be placed.
+func simulatedNames(f *ast.File) map[string]bool {
+	names := map[string]bool{}
+	ast.Inspect(f, func(n ast.Node) bool {
+		switch x := n.(type) {
+		case *ast.Field:
+			if isSyncMutexType(x.Type) {
+				for _, id := range x.Names {
+					names[id.Name] = true
+				}
+			}
+		case *ast.ValueSpec:
+			if x.Type != nil && isSyncMutexType(x.Type) {
+				for _, id := range x.Names {
+					names[id.Name] = true
+				}
+			}
+			for i, v := range x.Values {
+				if i < len(x.Names) && isMutexValue(v) {
+					names[x.Names[i].Name] = true
+				}
+			}
+		case *ast.AssignStmt:
+			for i, v := range x.Rhs {
+				if id, ok := x.Lhs[min(i, len(x.Lhs)-1)].(*ast.Ident); ok && len(x.Lhs) == len(x.Rhs) && isMutexValue(v) {
+					names[id.Name] = true
+				}
+			}
+		}
+
+		return true
+	})
+
+	return names
+}
+
+// isMutexValue recognises sync.Mutex{}, &sync.Mutex{} and new(sync.Mutex).
+func isMutexValue(e ast.Expr) bool {
+	if u, ok := e.(*ast.UnaryExpr); ok {
+		e = u.X
+	}
+	switch x := e.(type) {
+	case *ast.CompositeLit:
+		return x.Type != nil && isSyncMutexType(x.Type)
+	case *ast.CallExpr:
+		id, ok := x.Fun.(*ast.Ident)
+
+		return ok && id.Name == "new" && len(x.Args) == 1 && isSyncMutexType(x.Args[0])
+	}
+
+	return false
+}
+
+// dropHookMutexes replaces the mutex argument of hand-placed hooks by nil: a
+// simulated mutex needs no predicate on the hook in front of its Lock.
+func dropHookMutexes(f *ast.File) {
+	ast.Inspect(f, func(n ast.Node) bool {
+		if ce, ok := n.(*ast.CallExpr); ok && len(ce.Args) == 2 {
+			if id, ok := ce.Fun.(*ast.Ident); ok && strings.HasPrefix(id.Name, "simPo") {
+				ce.Args[1] = ast.NewIdent("nil")
+			}
+		}
+
+		return true
+	})
+}
 
 func check(err error) {
 	if err != nil {
@@ -121,10 +355,13 @@ type inserter struct {
 	// early "Unlock(); return" branch does not end the outer section), and a
 	// deferred Unlock keeps the section open until the function ends.
 	held int
+
+	// simNames: see simulatedNames; nil without -simsync.
+	simNames map[string]bool
 }
 
 // lockDelta classifies a statement as a lock (+1) or unlock (-1) call.
-func lockDelta(s ast.Stmt) int {
+func (in *inserter) lockDelta(s ast.Stmt) int {
 	es, ok := s.(*ast.ExprStmt)
 	if !ok {
 		return 0
@@ -136,6 +373,17 @@ func lockDelta(s ast.Stmt) int {
 	sel, ok := ce.Fun.(*ast.SelectorExpr)
 	if !ok {
 		return 0
+	}
+	// A simulated mutex: not a section in which a parked task can hang others.
+	switch r := sel.X.(type) {
+	case *ast.Ident:
+		if in.simNames[r.Name] {
+			return 0
+		}
+	case *ast.SelectorExpr:
+		if in.simNames[r.Sel.Name] {
+			return 0
+		}
 	}
 	switch sel.Sel.Name {
 	case "Lock", "RLock":
@@ -223,7 +471,7 @@ func (in *inserter) list(stmts []ast.Stmt) []ast.Stmt {
 		before := in.held
 		in.stmt(s)
 		in.held = max(before, in.held)
-		if d := lockDelta(s); d != 0 {
+		if d := in.lockDelta(s); d != 0 {
 			in.held = max(0, before+d)
 		}
 		out = append(out, s)
